@@ -77,6 +77,14 @@ def run_C03(ctx):
                              ("C01", "C06", "C11", "C14", "C15", "C16", "C19", "C17")])
 
 
+def run_C04(ctx):
+    drive_and_validate(ctx, [{"driver": "C04", "n": sz(ctx, 1600, 60000), "probes": 32}])
+
+
+def run_C09(ctx):
+    drive_and_validate(ctx, [{"driver": "C09", "n": sz(ctx, 1600, 60000), "probes": 40}])
+
+
 PROPS = {
     "C01": {"run": run_C01,
             "rule": "seeded generators (9 families) x 4 clip types x 4 fill rules x 4 entry points; an event is non-trivial "
@@ -113,6 +121,13 @@ PROPS = {
                     "degenerate shapes, empty/inverted rectangles, every enum value including one past the last, deltas "
                     "0, +-0.25 .. +-5e8, precisions -9..9, x10^6 magnitudes), enumerated by TLC; every call counts as "
                     "non-trivial (each is a distinct degenerate configuration)"},
+    "C04": {"run": run_C04,
+            "rule": "nested rings to depth 7, rectangles on a coarse grid (touching, splits, horizontal joins), combs and the "
+                    "C01 families, through BooleanOpPolyTree64/D and ExecutePolyTree64/D; non-trivial: tree depth >= 2"},
+    "C09": {"run": run_C09,
+            "rule": "open polylines on the 8-grid (also starting on clip vertices) against closed clip/subject sets x "
+                    "Intersection/Union/Difference x 4 fill rules through ExecuteOC (64, D) and the tree form; non-trivial: "
+                    "on-line probes with both expected answers"},
     "C02": {"run": run_C02,
             "rule": "as C01 with preserve-collinear / reverse-solution toggled; non-trivial as C01"},
 }
